@@ -2,8 +2,9 @@ import PtnModel.Proofs.OrthoBasic
 /-!
 # One local QR step of `MPS.orthonormalize` (`local_orthonormalize_left_qr`)
 
-`LocalLeft dqr A Anext qd qL qR A' Anext' qb` : the step returned `(A', Anext', qb)`, i.e. the block QR of the
-matricization of `A` returned `(Q, R, qb)`, `A'` is `Q` reshaped and `Anext' = R · Anext`.
+`LocalLeft dqr A Anext qd qL qR A' Anext' qb` : the block QR of the matricization of `A` returned `(Q, R, qb)`,
+`A'` is `Q` reshaped and `Anext' = R · Anext` (both on in-range indices, `T3Eqv`).  `localLeft_of_run`: this
+holds for every successful run of `MPS.localOrthoLeftQr`.
 
 Consequences (from the theorems of C11): shapes and block sparsity of `A'`, `Anext'`; the bond bound;
 `A' · Anext' = A · Anext` (product clause); `A'` is a left isometry (isometry clause).
@@ -15,25 +16,24 @@ open Ptn.BondOps Finset
 variable {𝕜 : Type} [CommRing 𝕜] [DecidableEq 𝕜]
 variable {dqr : Mat 𝕜 → Mat 𝕜 × Mat 𝕜}
 
+/-- `R · Anext` as an index formula -/
+def rawPush (R : Mat 𝕜) (X : T3 𝕜) : T3 𝕜 :=
+  ⟨X.d0, R.m, X.d2, fun s p c => ∑ b ∈ range R.n, R.f p b * X.f s b c⟩
+
 /-- the tensor `R · Anext` of a local left step (`np.tensordot(R, Anext, (1, 1)).transpose((1, 0, 2))`) -/
 def pushR (R : Mat 𝕜) (Anext : T3 𝕜) : T3 𝕜 :=
   (⟨Anext.d0, R.m, Anext.d2, fun s p c => sumRange R.n fun b => R.f p b * Anext.f s b c⟩ : T3 𝕜).tab
 
-@[simp] theorem pushR_d0 (R : Mat 𝕜) (X : T3 𝕜) : (pushR R X).d0 = X.d0 := rfl
-@[simp] theorem pushR_d1 (R : Mat 𝕜) (X : T3 𝕜) : (pushR R X).d1 = R.m := rfl
-@[simp] theorem pushR_d2 (R : Mat 𝕜) (X : T3 𝕜) : (pushR R X).d2 = X.d2 := rfl
+theorem pushR_eqv (R : Mat 𝕜) (X : T3 𝕜) : T3Eqv (pushR R X) (rawPush R X) :=
+  ⟨rfl, rfl, rfl, fun _ _ _ hs hp hc =>
+    (Env.t3_tab_f (A := ⟨X.d0, R.m, X.d2, fun s p c => sumRange R.n fun b => R.f p b * X.f s b c⟩) hs hp hc).trans
+      (Env.sumRange_eq _ _)⟩
 
-theorem pushR_f (R : Mat 𝕜) (X : T3 𝕜) {s p c : Nat} (hs : s < X.d0) (hp : p < R.m) (hc : c < X.d2) :
-    (pushR R X).f s p c = ∑ b ∈ range R.n, R.f p b * X.f s b c := by
-  unfold pushR
-  exact (Env.t3_tab_f (A := ⟨X.d0, R.m, X.d2, fun s p c => sumRange R.n fun b => R.f p b * X.f s b c⟩) hs hp hc).trans
-    (Env.sumRange_eq _ _)
-
-/-- the local step returned `(A', Anext', qb)` -/
+/-- the local step returned `(A', Anext', qb)` (tensors up to out-of-range entries) -/
 def LocalLeft (dqr : Mat 𝕜 → Mat 𝕜 × Mat 𝕜) (A Anext : T3 𝕜) (qd qL qR : List Int) (A' Anext' : T3 𝕜)
     (qb : List Int) : Prop :=
   ∃ Q R, qr dqr A.flattenLeft.tab (QN.flatten2 qd qL) qR = .ok (Q, R, qb) ∧ R.n = Anext.d1 ∧
-    A' = (T3.ofFlattenLeft Q A.d0 A.d1).tab ∧ Anext' = pushR R Anext
+    T3Eqv A' (T3.ofFlattenLeft Q A.d0 A.d1) ∧ T3Eqv Anext' (rawPush R Anext)
 
 theorem localLeft_eq (A Anext : T3 𝕜) (qd qL qR : List Int) :
     MPS.localOrthoLeftQr dqr A Anext qd qL qR =
@@ -68,8 +68,8 @@ theorem localLeft_of_run {A Anext : T3 𝕜} {qd qL qR : List Int} {A' Anext' : 
       injection h with h
       injection h with h1 h
       injection h with h2 h3
-      subst h3
-      exact ⟨Q, R, hq, not_not.1 hc, h1.symm, h2.symm⟩
+      subst h3 h1 h2
+      exact ⟨Q, R, hq, not_not.1 hc, T3Eqv.tab _, pushR_eqv R Anext⟩
 
 /-- the input of the block QR of a local step satisfies the hypotheses of C11 -/
 theorem qrInput_flattenLeft {A : T3 𝕜} {qd qL qR : List Int} (hA : T3Wf A qd qL qR)
@@ -108,37 +108,39 @@ structure LocalDims (A A' Anext' Anext : T3 𝕜) (qd qL qR qb : List Int) : Pro
   d0 : Anext'.d0 = Anext.d0
   d1 : Anext'.d1 = qb.length
   d2 : Anext'.d2 = Anext.d2
+  dn : A.d2 = Anext.d1
 
 theorem LocalLeft.dims (h : LocalLeft dqr A Anext qd qL qR A' Anext' qb) (hshape : ∀ B, ShapeAt dqr B)
     (hA : T3Wf A qd qL qR) (hd : 0 < qd.length) (hL : 0 < qL.length) (hR : 0 < qR.length) :
     LocalDims A A' Anext' Anext qd qL qR qb := by
-  obtain ⟨Q, R, hrun, hRn, rfl, rfl⟩ := h
+  obtain ⟨Q, R, hrun, hRn, hA', hN'⟩ := h
   have H := qrInput_flattenLeft hA hd hL hR
   have hres := result_of_run (fun B _ => hshape B) H hrun
   have hm : Q.m = qd.length * qL.length := by rw [hres.Qm, ← hA.d0, ← hA.d1]; rfl
-  refine ⟨hres.pos, ?_, ?_, rfl, hres.Rm, rfl⟩
+  refine ⟨hres.pos, ?_, ?_, hN'.d0, hN'.d1.trans hres.Rm, hN'.d2, hres.Rn.symm.trans hRn⟩
   · have := hres.le
     have e1 : A.flattenLeft.tab.m = qd.length * qL.length := by rw [← hA.d0, ← hA.d1]; rfl
     have e2 : A.flattenLeft.tab.n = qR.length := hA.d2
     rw [e1, e2] at this
     exact this
-  · rw [hA.d0, hA.d1]
+  · refine T3Wf.congr hA' ?_
+    rw [hA.d0, hA.d1]
     exact sparseT3_ofFlattenLeft hm hres.Qn hres.sparseQ
 
 /-- the pushed tensor `R · Anext` is well-formed w.r.t. the new bond charges -/
 theorem LocalLeft.wfNext (h : LocalLeft dqr A Anext qd qL qR A' Anext' qb) (hshape : ∀ B, ShapeAt dqr B)
     (hA : T3Wf A qd qL qR) (hd : 0 < qd.length) (hL : 0 < qL.length) (hR : 0 < qR.length)
     {qR' : List Int} (hN : T3Wf Anext qd qR qR') : T3Wf Anext' qd qb qR' := by
-  obtain ⟨Q, R, hrun, hRn, rfl, rfl⟩ := h
+  obtain ⟨Q, R, hrun, hRn, hA', hN'⟩ := h
   have H := qrInput_flattenLeft hA hd hL hR
   have hres := result_of_run (fun B _ => hshape B) H hrun
-  refine ⟨hN.d0, hres.Rm, hN.d2, ?_⟩
+  refine T3Wf.congr hN' ⟨hN.d0, hres.Rm, hN.d2, ?_⟩
   intro s p c hs hp hc hne
   have hs' : s < Anext.d0 := hs
   have hp' : p < R.m := hp
   have hc' : c < Anext.d2 := hc
-  rw [pushR_f R Anext hs' hp' hc'] at hne
-  obtain ⟨b, hb, hb0⟩ := Finset.exists_ne_zero_of_sum_ne_zero hne
+  have hne' : ∑ b ∈ range R.n, R.f p b * Anext.f s b c ≠ 0 := hne
+  obtain ⟨b, hb, hb0⟩ := Finset.exists_ne_zero_of_sum_ne_zero hne'
   have hb' : b < R.n := Finset.mem_range.1 hb
   have h1 : R.f p b ≠ 0 := fun h0 => hb0 (by rw [h0, zero_mul])
   have h2 : Anext.f s b c ≠ 0 := fun h0 => hb0 (by rw [h0, mul_zero])
@@ -152,19 +154,22 @@ theorem LocalLeft.prod (h : LocalLeft dqr A Anext qd qL qR A' Anext' qb) (hshape
     (hA : T3Wf A qd qL qR) (hd : 0 < qd.length) (hL : 0 < qL.length) (hR : 0 < qR.length)
     {s a s' c : Nat} (hs : s < A.d0) (ha : a < A.d1) (hs' : s' < Anext.d0) (hc : c < Anext.d2) :
     ∑ p ∈ range qb.length, A'.f s a p * Anext'.f s' p c = ∑ b ∈ range A.d2, A.f s a b * Anext.f s' b c := by
-  obtain ⟨Q, R, hrun, hRn, rfl, rfl⟩ := h
+  obtain ⟨Q, R, hrun, hRn, hA', hN'⟩ := h
   have H := qrInput_flattenLeft hA hd hL hR
   have hres := result_of_run (fun B _ => hshape B) H hrun
   have hr : s * A.d1 + a < A.d0 * A.d1 := fused_lt hs ha
   have hRn' : R.n = A.d2 := hres.Rn
-  have e1 : ∀ p ∈ range qb.length, (T3.ofFlattenLeft Q A.d0 A.d1).tab.f s a p * (pushR R Anext).f s' p c =
+  have e1 : ∀ p ∈ range qb.length, A'.f s a p * Anext'.f s' p c =
       ∑ b ∈ range A.d2, (Q.f (s * A.d1 + a) p * R.f p b) * Anext.f s' b c := by
     intro p hp
     have hp' : p < qb.length := Finset.mem_range.1 hp
-    rw [Env.t3_tab_f (T3.ofFlattenLeft Q A.d0 A.d1) hs ha (by show p < Q.n; rw [hres.Qn]; exact hp'),
-      pushR_f R Anext hs' (by rw [hres.Rm]; exact hp') hc, hRn', Finset.mul_sum]
+    rw [hA'.f s a p (by rw [hA'.d0]; exact hs) (by rw [hA'.d1]; exact ha)
+        (by rw [hA'.d2]; show p < Q.n; rw [hres.Qn]; exact hp'),
+      hN'.f s' p c (by rw [hN'.d0]; exact hs') (by rw [hN'.d1]; show p < R.m; rw [hres.Rm]; exact hp')
+        (by rw [hN'.d2]; exact hc)]
+    show Q.f (s * A.d1 + a) p * ∑ b ∈ range R.n, R.f p b * Anext.f s' b c = _
+    rw [hRn', Finset.mul_sum]
     refine Finset.sum_congr rfl fun b _ => ?_
-    show Q.f (s * A.d1 + a) p * (R.f p b * Anext.f s' b c) = _
     rw [mul_assoc]
   rw [Finset.sum_congr rfl e1, Finset.sum_comm]
   refine Finset.sum_congr rfl fun b hb => ?_
@@ -188,13 +193,21 @@ def LeftIso (A : T3 𝕜) : Prop :=
   ∀ p p', p < A.d2 → p' < A.d2 →
     ∑ s ∈ range A.d0, ∑ a ∈ range A.d1, star (A.f s a p) * A.f s a p' = if p = p' then 1 else 0
 
+theorem LeftIso.congr {X Y : T3 𝕜} (h : T3Eqv X Y) (hY : LeftIso Y) : LeftIso X := by
+  intro p p' hp hp'
+  rw [← hY p p' (by rw [← h.d2]; exact hp) (by rw [← h.d2]; exact hp'), ← h.d0, ← h.d1]
+  refine Finset.sum_congr rfl fun s hs => Finset.sum_congr rfl fun a ha => ?_
+  rw [h.f s a p (Finset.mem_range.1 hs) (Finset.mem_range.1 ha) hp,
+    h.f s a p' (Finset.mem_range.1 hs) (Finset.mem_range.1 ha) hp']
+
 /-- the new site tensor of a local step is a left isometry (isometry clause of the kernel contract) -/
 theorem LocalLeft.iso (h : LocalLeft dqr A Anext qd qL qR A' Anext' qb) (hshape : ∀ B, ShapeAt dqr B)
     (hiso : ∀ B, IsoAt dqr B)
     (hA : T3Wf A qd qL qR) (hd : 0 < qd.length) (hL : 0 < qL.length) (hR : 0 < qR.length) : LeftIso A' := by
-  obtain ⟨Q, R, hrun, hRn, rfl, rfl⟩ := h
+  obtain ⟨Q, R, hrun, hRn, hA', hN'⟩ := h
   have H := qrInput_flattenLeft hA hd hL hR
   have hres := result_of_run (fun B _ => hshape B) H hrun
+  refine LeftIso.congr hA' ?_
   intro p p' hp hp'
   have hp1 : p < Q.n := hp
   have hp1' : p' < Q.n := hp'
@@ -202,11 +215,6 @@ theorem LocalLeft.iso (h : LocalLeft dqr A Anext qd qL qR A' Anext' qb) (hshape 
   rw [← this]
   show _ = ∑ i ∈ range (A.d0 * A.d1), _
   rw [sum_fused]
-  refine Finset.sum_congr rfl fun s hs => Finset.sum_congr rfl fun a ha => ?_
-  have hs' : s < A.d0 := Finset.mem_range.1 hs
-  have ha' : a < A.d1 := Finset.mem_range.1 ha
-  rw [Env.t3_tab_f (T3.ofFlattenLeft Q A.d0 A.d1) hs' ha' hp1,
-    Env.t3_tab_f (T3.ofFlattenLeft Q A.d0 A.d1) hs' ha' hp1']
   rfl
 
 end iso
